@@ -183,6 +183,14 @@ func (c *s4ctx) allowed(s s4Site) (reason string, note bool) {
 				return "a metric updates the scalar counters of its own object; no tensor is involved", false
 			}
 		}
+		// 3b. once-guarded lazy initialisation: the store sits in a function literal whose only use is as the argument
+		//     of (*sync.Once).Do on a Once that is a field of the very object being written, and the value is scalar
+		//     data (a table of bounds computed on first use).  Every call - and every goroutine - sees it written once.
+		if mIsField && !c.e.pointerful(x.Val.Type()) && s.fn.Parent() != nil {
+			if owner := onceGuardedBy(s.fn); owner != nil && sameNamed(mfr.Struct, owner) {
+				return "initialises scalar state of its own object inside sync.Once.Do (written once, before any reader proceeds)", false
+			}
+		}
 		// 4. the optimizer step replaces the tensor handle behind the pointer it is given; the old tensor is not modified
 		if c.fnSGDUpdate != nil && s.fn == c.fnSGDUpdate && len(s.fn.Params) > 1 && x.Addr == s.fn.Params[1] {
 			return "SGD.Update stores the new weight through the *tensor.Tensor it was given: the variable changes, the old tensor does not", false
@@ -446,4 +454,60 @@ func stdInPlace(fn *ssa.Function) (string, bool) {
 		}
 	}
 	return "", false
+}
+
+// onceGuardedBy: fn is a function literal used only as the argument of (*sync.Once).Do where the Once is a field of a
+// named struct; returns that struct type (nil otherwise).
+func onceGuardedBy(fn *ssa.Function) *types.Named {
+	parent := fn.Parent()
+	if parent == nil {
+		return nil
+	}
+	var owner *types.Named
+	found := false
+	for _, b := range parent.Blocks {
+		for _, in := range b.Instrs {
+			mc, ok := in.(*ssa.MakeClosure)
+			if !ok || mc.Fn != fn {
+				continue
+			}
+			refs := mc.Referrers()
+			if refs == nil {
+				return nil
+			}
+			for _, ref := range *refs {
+				if _, isDbg := ref.(*ssa.DebugRef); isDbg {
+					continue
+				}
+				call, ok := ref.(*ssa.Call)
+				if !ok {
+					return nil
+				}
+				callee := call.Call.StaticCallee()
+				if callee == nil || callee.String() != "(*sync.Once).Do" || len(call.Call.Args) != 2 || call.Call.Args[1] != mc {
+					return nil
+				}
+				fa, ok := call.Call.Args[0].(*ssa.FieldAddr)
+				if !ok {
+					return nil
+				}
+				pt, ok := types.Unalias(fa.X.Type()).Underlying().(*types.Pointer)
+				if !ok {
+					return nil
+				}
+				n, ok := types.Unalias(pt.Elem()).(*types.Named)
+				if !ok {
+					return nil
+				}
+				if owner != nil && owner != n {
+					return nil
+				}
+				owner, found = n, true
+			}
+		}
+	}
+	if !found {
+		return nil
+	}
+	return owner
 }
